@@ -98,6 +98,7 @@ func newDrvDaemon(daemonAddr string) *drv {
 	d := &drv{}
 	timebase.RegisterClock(sysClock{})
 	d.provider = ntske.NewProvider()
+	theProvider = d.provider
 	d.srvIP = ownAddr(13)
 	d.dispIP = ownAddr(113)
 	d.hIP = ownAddr(213)
@@ -313,7 +314,7 @@ func macOfKey(p *parsed, raw []byte, key []byte) (mac []byte) {
 	if key == nil {
 		key = keyFn(p)
 	}
-	if key == nil {
+	if len(key) == 0 { // nil: this datagram has no key; empty: the caller says there is none
 		return nil
 	}
 	buf := append([]byte(nil), raw...)
@@ -333,8 +334,11 @@ func macOfKey(p *parsed, raw []byte, key []byte) (mac []byte) {
 }
 
 func ntpRequestOK(b []byte) bool {
+	if len(b) > ntp.PacketLen {
+		return ntsValid(b) // the NTS branch
+	}
 	if len(b) != ntp.PacketLen {
-		return false // longer payloads take the NTS branch, which nothing generated here passes
+		return false
 	}
 	var q ntp.Packet
 	if ntp.DecodePacket(&q, b) != nil {
@@ -347,7 +351,10 @@ func ntpRequestOK(b []byte) bool {
 // [ok layers hdr e2e l4 buflen reversed mac]
 func view(raw []byte) string { return viewAs(raw, true) }
 
-func viewAs(raw []byte, recycle bool) string {
+func viewAs(raw []byte, recycle bool) string { return viewKey(raw, recycle, nil) }
+
+// viewKey: the MAC is recomputed under key (nil: the key keyFn names for the datagram, empty: none).
+func viewKey(raw []byte, recycle bool, key []byte) string {
 	p := parseAs(raw, recycle)
 	if !p.ok {
 		return lib.L("0", lib.L(), lib.L(), lib.L(), lib.L(), lib.I(int64(len(raw))), lib.L(), lib.B(nil))
@@ -377,7 +384,7 @@ func viewAs(raw []byte, recycle bool) string {
 		l4 = lib.L("1", lib.U(uint64(p.scmp.TypeCode.Type())), lib.U(uint64(p.scmp.TypeCode.Code())), lib.B(p.scmp.Payload))
 	}
 	return lib.L("1", lib.L(ls...), hdr, lib.L(opts...), l4, lib.I(int64(len(raw))),
-		reversed(uint8(p.scn.PathType), pb), lib.B(macOf(p, raw)))
+		reversed(uint8(p.scn.PathType), pb), lib.B(macOfKey(p, raw, key)))
 }
 
 func obsList(os []obs) string {
@@ -657,6 +664,18 @@ func stepsString(steps []step) string {
 	return lib.L(items...)
 }
 
+// stepFlags: further observables of a step.  Keyed child: whether the daemon hands
+// out a key for the request's client AS, and whether that key's epoch is the current one.
+var stepFlags = func(raw []byte) []string { return nil }
+
+// srvKind: the case kind of listener histories in this process.
+var srvKind = "srv"
+
+func stepOut(s step, reps []obs, nsent int) string {
+	items := []string{view(s.raw), obsList(reps), lib.I(int64(nsent))}
+	return lib.L(append(items, stepFlags(s.raw)...)...)
+}
+
 // runSrv drives one history against the listeners.
 func (d *drv) runSrv(tags string, steps []step) { d.runSrvKind("srv", tags, steps) }
 
@@ -666,12 +685,15 @@ func (d *drv) runSrvKind(kind, tags string, steps []step) {
 	var outs []string
 	for _, s := range steps {
 		reps, nsent := d.exchange(s.sender, s.listener, s.raw)
-		outs = append(outs, lib.L(view(s.raw), obsList(reps), lib.I(int64(nsent))))
+		outs = append(outs, stepOut(s, reps, nsent))
 		if d.lost {
 			break
 		}
 	}
 	emitCase(kind, tags, args, lib.V("0", d.cfgString(), lib.L(outs...)))
+	if strictOn && kind == "srv.keyed" && !d.lost {
+		emitCase("srv.strict", tags, args, lib.V("0", d.cfgString(), lib.L(outs...)))
+	}
 }
 
 // A datagram with an unregistered path type and an authenticator option makes
